@@ -12,7 +12,7 @@ def load(path, name):
     return m
 P = load(os.path.join(w, 'tools', 'props.py'), 'agent_props').PROPS
 T = load(os.path.join(w, 'tools', 'manifest_text.py'), 'agent_text').TEXT
-ids = sys.argv[2:] or [i for i in P if i in T]
+ids = [a for a in sys.argv[2:] if not a.startswith('--')] or [i for i in P if i in T]
 for i in ids:
     out = os.path.join(V, 'tools', 'props.d', i + '.py')
     if os.path.exists(out) and '--force' not in sys.argv:
